@@ -21,6 +21,13 @@
 (*                     block, which is renamed through the block / equation after     *)
 (*                     equation; every owner must see the map applied exactly once    *)
 (*                     (a swap swaps in both, a chain moves one step in both).        *)
+(*                     r = "cancel_first" / "cancel_mid": the equation is built term  *)
+(*                     by term (Equation.AddTerm, one call per additive term of the   *)
+(*                     expression) and holds a cancelled term (AddTerm(CancelName),   *)
+(*                     AddTerm(-CancelName): coefficient 0, rendered as nothing)      *)
+(*                     before the first / after the first term of the expression;     *)
+(*                     renamed through the block / the equation.  The terms that      *)
+(*                     follow a cancelled term are renamed like all others.           *)
 (*                     The result is the equation's right-hand side.  An Equation may *)
 (*                     store its text in a normal form (a leading + or redundant      *)
 (*                     brackets of a one- or two-factor term dropped - C12's subject):*)
@@ -69,7 +76,9 @@ CONSTANTS
 
 Tok(k, t) == [kind |-> k, text |-> t]
 IsName(t) == t.kind = "NAME"
-AllRoutes == {"equation", "block", "shared_block", "shared_each"}
+AllRoutes == {"equation", "block", "shared_block", "shared_each", "cancel_first", "cancel_mid"}
+TermwiseRoutes == {"cancel_first", "cancel_mid"}    \* equation built by AddTerm, with a cancelled term
+CancelName == "m_x"                                 \* the name added and subtracted again
 SharedRoutes == {"shared_block", "shared_each"}     \* two equations built from the same Term objects
 TokNL == Tok("NL", "NL")                \* line break inside brackets
 TokNewline == Tok("NEWLINE", "NL")      \* end of a logical line that is followed by another one
